@@ -84,6 +84,11 @@ outside the hub model); that an ended session is taken off it is a fact of `Hub.
 every run, and the check's judge looks at the real list after every step (`residue:federated`). -/
 theorem C07_federated_cleared : Generated.Hub.federatedClearedOnRemove = true := by decide
 
+/-- The model's per-backend count *is* the set of registered sessions (`Hub.count`).  The source reports
+`len(b.sessions)` under the set's lock — to its own limit check and to the other servers of a cluster — and keeps
+no separate counter that could drift from the set (regenerated on every run). -/
+theorem C07_count_is_set_size : Generated.Hub.sessionCountIsSetSize = true := by decide
+
 private def demo : List Op :=
   [.connect 1, .connect 2, .hello 1 0 .internal "" true false, .hello 2 0 .client "bob" false false,
    .join 2 "roomA" "nc2" (.ok none ""), .addVirtual 1 "roomA" "v1" "carol" none true, .bye 1]
